@@ -71,6 +71,11 @@ type Sym struct {
 	RecvT    types.Type // symField: the static type of the expression the field was selected from
 	Origin   ast.Node   // symChoice from a multi-return helper: the call; alternatives of all results of that call are aligned
 	AltConds []*Sym     // symChoice from an if/else merge: the condition of each alternative as a value
+	// symStruct values created while a function is walked: the path conditions and loop depth at that point, so that a
+	// later store into the value can be told unconditional (same conditions) from conditional
+	Born      []symCond
+	BornLoops int
+	HasBorn   bool
 }
 
 func symUnknownOf(e ast.Expr) *Sym { return &Sym{K: symUnknown, Expr: e} }
@@ -361,13 +366,14 @@ type symWalker struct {
 	// AssumeFn may replace a field / variable value by a constant (a case split by the rule)
 	AssumeFn func(s *Sym) *Sym
 	// OnSend is called for every channel send statement
-	OnSend        func(w *symWalker, st *ast.SendStmt, ch *Sym, val *Sym)
-	feas          map[ast.Node][]bool   // per multi-return call: which of its return alternatives are still possible on this path
-	broke         bool                  // an unconditional break was executed in the loop body being unrolled
-	loopFrames    []*loopFrame          // the enclosing loops of this function whose bodies are being walked
-	inheritedLeft []string              // the same for the loops of the callers this function is interpreted in
-	derefStored   map[types.Object]bool // pointer parameters / receivers through which this function stored (`*p = v`)
-	globalsSeen   map[types.Object]*Sym
+	OnSend           func(w *symWalker, st *ast.SendStmt, ch *Sym, val *Sym)
+	feas             map[ast.Node][]bool // per multi-return call: which of its return alternatives are still possible on this path
+	broke            bool                // an unconditional break was executed in the loop body being unrolled
+	loopFrames       []*loopFrame        // the enclosing loops of this function whose bodies are being walked
+	inheritedLeft    []string            // the same for the loops of the callers this function is interpreted in
+	inheritedStopped bool
+	derefStored      map[types.Object]bool // pointer parameters / receivers through which this function stored (`*p = v`)
+	globalsSeen      map[types.Object]*Sym
 }
 
 // loopFrame records, for a loop body being walked, under which conditions an earlier statement left the iteration
@@ -553,6 +559,7 @@ func (p *Prog) SymWalk(pk *packages.Package, fd *ast.FuncDecl, proto *symWalker,
 		w.Inline, w.OnCall, w.OnStore, w.OnReturn, w.OnText, w.Assume = proto.Inline, proto.OnCall, proto.OnStore, proto.OnReturn, proto.OnText, proto.Assume
 		w.AssumeFn, w.OnSend = proto.AssumeFn, proto.OnSend
 		w.inheritedLeft = proto.inheritedLeft
+		w.inheritedStopped = proto.inheritedStopped
 		w.feas = copyFeas(proto.feas)
 		w.conds, w.loops, w.depth = append([]symCond{}, proto.conds...), append([]*Sym{}, proto.loops...), proto.depth
 		for k := range proto.stack {
@@ -955,7 +962,7 @@ func (w *symWalker) eval1(e ast.Expr) *Sym {
 		}
 		return &Sym{K: symCall, Fn: "slice", Parts: []*Sym{base, low, high}, Expr: e}
 	case *ast.CompositeLit:
-		return w.composite(x)
+		return w.born(w.composite(x))
 	case *ast.FuncLit:
 		return &Sym{K: symFuncLit, Lit: x, Env: w.env, Expr: e}
 	case *ast.CallExpr:
@@ -1073,13 +1080,17 @@ func (w *symWalker) call(x *ast.CallExpr) *Sym {
 					}
 				}
 			case *types.Map:
-				result = &Sym{K: symStruct, Fields: map[string]*Sym{}, Expr: x, Type: tv.Type}
+				result = w.born(&Sym{K: symStruct, Fields: map[string]*Sym{}, Expr: x, Type: tv.Type})
 			}
 		}
 	case "fmt.Sprintf":
 		if len(args) >= 1 {
 			if f, ok := args[0].ConstString(); ok {
-				if s, ok := sprintfShape(f, args[1:]); ok {
+				operands := args[1:]
+				if x.Ellipsis.IsValid() && len(args) == 2 && listStatic(args[1]) {
+					operands = args[1].Parts // Sprintf(format, operands...) with a list known element by element
+				}
+				if s, ok := sprintfShape(f, operands); ok {
 					result = s
 					if w.textDepth == 0 && w.OnText != nil {
 						w.OnText(w, x, s)
@@ -1102,6 +1113,9 @@ func (w *symWalker) call(x *ast.CallExpr) *Sym {
 					parts = append(parts, e)
 				}
 				result = concatOf(parts...)
+				if len(parts) == 1 && dynamicPart(parts[0]) {
+					result = &Sym{K: symConcat, Parts: parts} // one text, not a list part of whatever list it lands in
+				}
 			}
 		}
 	}
@@ -1211,6 +1225,7 @@ func (w *symWalker) call(x *ast.CallExpr) *Sym {
 			}
 			proto := &symWalker{Inline: w.Inline, OnCall: w.OnCall, OnStore: w.OnStore, OnText: w.OnText, OnReturn: nil, Assume: w.Assume, AssumeFn: w.AssumeFn, OnSend: w.OnSend, conds: w.conds, loops: w.loops, depth: w.depth + 1, stack: w.stack}
 			proto.inheritedLeft = w.leftSoFar()
+			proto.inheritedStopped = w.stoppedSoFar()
 			sub := w.p.SymWalk(fpk, fdecl, proto, bind)
 			for po, target := range writeBack {
 				if !sub.derefStored[po] {
@@ -1491,7 +1506,7 @@ func (w *symWalker) assign(lhs ast.Expr, val *Sym, at ast.Node, define bool) {
 	case *ast.IndexExpr:
 		target, key := w.eval(l.X), w.eval(l.Index)
 		// a store into a map literal held in a local: extend the literal when unconditional
-		if target.K == symStruct && len(w.loops) == 0 {
+		if target.K == symStruct && (len(w.loops) == 0 || (target.HasBorn && len(w.loops) == target.BornLoops)) {
 			if ks, ok := key.ConstString(); ok {
 				if _, exists := target.Fields[ks]; !exists {
 					target.Order = append(target.Order, ks)
@@ -1512,14 +1527,14 @@ func (w *symWalker) assign(lhs ast.Expr, val *Sym, at ast.Node, define bool) {
 		if id, ok := ast.Unparen(l.X).(*ast.Ident); ok && target.K == symStruct {
 			if o := w.info.Uses[id]; o != nil {
 				if _, isStruct := o.Type().Underlying().(*types.Struct); isStruct {
-					upd := &Sym{K: symStruct, Fields: map[string]*Sym{}, Order: append([]string{}, target.Order...), Type: target.Type, Name: target.Name}
+					upd := &Sym{K: symStruct, Fields: map[string]*Sym{}, Order: append([]string{}, target.Order...), Type: target.Type, Name: target.Name, Born: target.Born, BornLoops: target.BornLoops, HasBorn: target.HasBorn}
 					for k, v := range target.Fields {
 						upd.Fields[k] = v
 					}
 					if _, exists := upd.Fields[l.Sel.Name]; !exists {
 						upd.Order = append(upd.Order, l.Sel.Name)
 					}
-					if len(w.conds) == 0 && len(w.loops) == 0 {
+					if w.unconditionalSince(target) {
 						upd.Fields[l.Sel.Name] = val
 					} else {
 						upd.Fields[l.Sel.Name] = &Sym{K: symCall, Fn: "maybe", Parts: []*Sym{val}, Name: condsText(w.conds)}
@@ -1550,7 +1565,28 @@ func (w *symWalker) assign(lhs ast.Expr, val *Sym, at ast.Node, define bool) {
 }
 
 // unconditionalSince: approximated by "no path condition is active" (stores under conditions are wrapped in maybe()).
-func (w *symWalker) unconditionalSince(target *Sym) bool { return len(w.conds) == 0 }
+func (w *symWalker) unconditionalSince(target *Sym) bool {
+	if target != nil && target.HasBorn {
+		if len(w.conds) != len(target.Born) || len(w.loops) != target.BornLoops {
+			return false
+		}
+		for i, c := range target.Born {
+			if w.conds[i].Cond != c.Cond || w.conds[i].Neg != c.Neg {
+				return false
+			}
+		}
+		return true
+	}
+	return len(w.conds) == 0 && len(w.loops) == 0
+}
+
+// born stamps a struct / map value with the conditions it is created under.
+func (w *symWalker) born(s *Sym) *Sym {
+	if s != nil && s.K == symStruct && !s.HasBorn {
+		s.Born, s.BornLoops, s.HasBorn = append([]symCond{}, w.conds...), len(w.loops), true
+	}
+	return s
+}
 
 func condsText(cs []symCond) string {
 	var out []string
@@ -1592,24 +1628,7 @@ func (w *symWalker) stmt(st ast.Stmt) (terminates bool) {
 					w.env[o] = w.eval(vs.Values[i])
 					continue
 				}
-				// zero value
-				switch u := o.Type().Underlying().(type) {
-				case *types.Slice:
-					w.env[o] = &Sym{K: symList, Type: o.Type()}
-				case *types.Basic:
-					switch {
-					case u.Info()&types.IsString != 0:
-						w.env[o] = symStr("")
-					case u.Info()&types.IsInteger != 0:
-						w.env[o] = &Sym{K: symConst, C: constant.MakeInt64(0)}
-					case u.Info()&types.IsBoolean != 0:
-						w.env[o] = &Sym{K: symConst, C: constant.MakeBool(false)}
-					default:
-						w.env[o] = symUnknownOf(nm)
-					}
-				default:
-					w.env[o] = &Sym{K: symNil}
-				}
+				w.env[o] = w.born(zeroSym(o.Type(), nm, 0))
 			}
 		}
 	case *ast.AssignStmt:
@@ -1662,7 +1681,25 @@ func (w *symWalker) stmt(st ast.Stmt) (terminates bool) {
 				}
 			}
 		}
-		w.leaveLoop(token.RETURN, false)
+		errorExit := false
+		if w.fd != nil && w.fd.Type.Results != nil {
+			i := 0
+			for _, f := range w.fd.Type.Results.List {
+				k := len(f.Names)
+				if k == 0 {
+					k = 1
+				}
+				for j := 0; j < k; j++ {
+					if tv, ok := w.info.Types[f.Type]; ok && isErrorType(tv.Type) && i < len(res) && res[i] != nil && res[i].K != symNil {
+						errorExit = true // the function fails as a whole: what it had built so far is not its result
+					}
+					i++
+				}
+			}
+		}
+		if !errorExit {
+			w.leaveLoop(token.RETURN, false)
+		}
 		w.returned = res
 		w.nret++
 		w.rets = append(w.rets, symReturn{condsText(w.conds[min(w.baseCond, len(w.conds)):]), res})
@@ -1799,23 +1836,26 @@ func (w *symWalker) stmt(st ast.Stmt) (terminates bool) {
 			w.loopOver(x, X, key, nil, x.Body, false, true)
 			return false
 		}
-		savedBrokeF := w.broke
-		defer func() { w.broke = savedBrokeF }()
+		// any other loop: the body is walked once for "every iteration of for(cond)"; lists it only extends and values it
+		// carries along are summarised as for a range loop
 		if x.Init != nil {
 			w.stmt(x.Init)
 		}
 		assigned := w.assignedIn(x)
-		w.forget(assigned, x)
+		inBody := w.assignedIn(x.Body)
+		control := map[types.Object]bool{}
+		for o := range assigned {
+			if !inBody[o] {
+				control[o] = true // the loop variable: assigned by the post statement only
+			}
+		}
+		w.forget(control, x)
 		bound := symUnknownOf(x.Cond)
 		if x.Cond != nil {
 			bound = w.eval(x.Cond)
 		}
-		w.loops = append(w.loops, &Sym{K: symCall, Fn: "for", Parts: []*Sym{bound}})
-		w.loopFrames = append(w.loopFrames, &loopFrame{base: len(w.conds)})
-		w.block(x.Body.List)
-		w.loopFrames = w.loopFrames[:len(w.loopFrames)-1]
-		w.loops = w.loops[:len(w.loops)-1]
-		w.forget(assigned, x)
+		w.loopOver(x, &Sym{K: symCall, Fn: "for", Parts: []*Sym{bound}}, nil, nil, x.Body, false, true)
+		w.forget(control, x)
 	case *ast.SwitchStmt:
 		savedBroke := w.broke
 		defer func() { w.broke = savedBroke }()
@@ -2046,7 +2086,7 @@ func (w *symWalker) copyIfStruct(t types.Type, val *Sym) *Sym {
 	default:
 		return val
 	}
-	out := &Sym{K: symStruct, Fields: map[string]*Sym{}, Type: t, Name: "copy"}
+	out := w.born(&Sym{K: symStruct, Fields: map[string]*Sym{}, Type: t, Name: "copy"})
 	for i := 0; i < st.NumFields(); i++ {
 		f := st.Field(i)
 		out.Fields[f.Name()] = &Sym{K: symField, X: val, Name: f.Name(), Type: f.Type(), RecvT: t}
@@ -2184,7 +2224,24 @@ func (w *symWalker) underResidual(parts []*Sym) []*Sym {
 	if len(cs) == 0 {
 		return parts
 	}
-	return []*Sym{{K: symWhen, Name: "not left earlier (" + strings.Join(cs, " | ") + ")", Parts: parts}}
+	if w.stoppedSoFar() {
+		// a break (or a return that is not an error exit) may have ended the loop: the later elements are not looked at
+		return []*Sym{{K: symWhen, Fn: "stopped", Name: "the loop was not stopped earlier (" + strings.Join(cs, " | ") + ")", Parts: parts}}
+	}
+	return []*Sym{{K: symWhen, Fn: "skipped", Name: "not left earlier (" + strings.Join(cs, " | ") + ")", Parts: parts}}
+}
+
+// stoppedSoFar: one of the leaves recorded so far ends the loop, not just the iteration.
+func (w *symWalker) stoppedSoFar() bool {
+	if w.inheritedStopped {
+		return true
+	}
+	for _, f := range w.loopFrames {
+		if len(f.leftForGood) > 0 {
+			return true
+		}
+	}
+	return false
 }
 
 // leftSoFar: the conditions under which the current iteration of an enclosing loop (of this function or of the callers
@@ -2726,4 +2783,34 @@ func (s *Sym) ResolveEmptiness(coll string, empty bool) *Sym {
 		}
 	}
 	return &cp
+}
+
+// zeroSym: the zero value of a type (`var x T`).
+func zeroSym(t types.Type, at ast.Expr, depth int) *Sym {
+	switch u := t.Underlying().(type) {
+	case *types.Slice:
+		return &Sym{K: symList, Type: t}
+	case *types.Basic:
+		switch {
+		case u.Info()&types.IsString != 0:
+			return symStr("")
+		case u.Info()&types.IsInteger != 0:
+			return &Sym{K: symConst, C: constant.MakeInt64(0)}
+		case u.Info()&types.IsBoolean != 0:
+			return &Sym{K: symConst, C: constant.MakeBool(false)}
+		default:
+			return symUnknownOf(at)
+		}
+	case *types.Struct:
+		if depth < 2 && u.NumFields() <= 24 {
+			out := &Sym{K: symStruct, Fields: map[string]*Sym{}, Type: t}
+			for i := 0; i < u.NumFields(); i++ {
+				f := u.Field(i)
+				out.Fields[f.Name()] = zeroSym(f.Type(), at, depth+1)
+				out.Order = append(out.Order, f.Name())
+			}
+			return out
+		}
+	}
+	return &Sym{K: symNil}
 }
